@@ -326,6 +326,10 @@ MERGE_FAILURES = [
     "multidoc-self-clash",
     # merges fine, but the result cannot be expressed in the requested format
     "unjsonable-output",
+    # --overwrite --backup onto a file that does not exist yet
+    "backup-of-missing-target",
+    # two inputs both spelled "-"
+    "two-dashes",
 ]
 OUTPUT_MODES = ["stdout", "output-new", "overwrite-input", "overwrite-other",
                 "overwrite-new"]
@@ -378,6 +382,10 @@ def gen_merge(rng, label=None, backup=None, mode=None):
         mode = rng.choice(["stdout", "output-new"])
     elif label == "output-dir-missing":
         mode = "output-nodir"
+    elif label == "backup-of-missing-target":
+        mode = "overwrite-new"
+    elif label == "two-dashes":
+        mode = rng.choice(["stdout", "output-new", "overwrite-other"])
     meta["mode"] = mode
     out = None
     if mode == "output-new":
@@ -421,6 +429,14 @@ def gen_merge(rng, label=None, backup=None, mode=None):
         meta["stale_bak"] = _stale_bak(rng, files, out, files[out])
     if label == "backup-without-overwrite":
         argv.append("-b")
+    if label == "backup-of-missing-target":
+        argv.append("-b")
+        meta["backup"] = True
+    if label == "two-dashes":
+        inputs.append("-")
+        inputs.append("-")
+        tty = False
+        stdin = "---\nfrom: stdin\n"
     # merge options
     if rng.random() < 0.4:
         argv += ["-A", rng.choice(["all", "left", "right", "unique"])]
